@@ -44,6 +44,12 @@ def main(prop, partname, n, sd=1):
             part.run(scn, stats)
         except Reject:
             pass
+        except Violation as v:
+            from vf import runner
+            k = runner.match_known(prop.upper(), part.name, scn, v)
+            if not k:
+                raise
+            stats.excluded[k] += 1
         x = cur.get("last_exc")
         if x is not None and getattr(x, "driver", None) is not None:
             k = "%s@%s" % (x.etype, x.site)
